@@ -1332,8 +1332,8 @@ h2_recv_continuation (uint32_t n, uint32_t clen, const off_t cqlen, chunkqueue *
     uint8_t *s = (uint8_t *)(c->mem->ptr + c->offset);
     uint32_t m = n;
     uint32_t flags;
-    h2con * const h2c = (h2con *)con->hx;
-    const uint32_t fsize = h2c->s_max_frame_size;
+    /*(max frame size advertised by lighttpd; see h2_parse_frames())*/
+    const uint32_t fsize = 16384;
     const uint32_t id = h2_u31(s+5);
     int nloops = 0;
     do {
@@ -1944,8 +1944,10 @@ h2_parse_frames (connection * const con)
      * (lighttpd does not currently increase max frame size)
      * (lighttpd does not currently decrease max frame size)
      * (XXX: If SETTINGS_MAX_FRAME_SIZE were increased and then decreased,
-     *       should accept the larger frame size until SETTINGS is ACK'd) */
-    const uint32_t fsize = h2c->s_max_frame_size;
+     *       should accept the larger frame size until SETTINGS is ACK'd)
+     * (limit for frames received is SETTINGS_MAX_FRAME_SIZE sent by lighttpd,
+     *  not h2c->s_max_frame_size received from peer, which limits frames sent)*/
+    const uint32_t fsize = 16384;
     for (off_t cqlen; (cqlen = chunkqueue_length(cq)) >= 9; ) {
 
         /* defer parsing additional frames if large output queue pending write*/
